@@ -41,7 +41,9 @@ CHECKS = {
             '(extract_sound); the same holds UNDER SAMPLING for every Size setting and whatever random.sample returns '
             '(extract_sampled_sound over a model of the first sample and the extract / check / extend loop), the loop always '
             'terminates (extract_sampled_terminates) and coincides with the batch result below the threshold; the fragment '
-            'matcher is sound and complete; the coarse classes are sound. Constants, category '
+            'matcher is sound and complete; the coarse classes are sound. The *_every_size theorems state all this with no '
+            'condition on the sizes (the code reads the cap on remembered strings as max(cap, 1), the model as Opts.norm; the '
+            'hypothesis 1 <= cap the proofs had forced exposed a defect at cap 0, fixed in 286f565). Constants, category '
             'tables and class order are regenerated from the source on every run and tied by tie_* theorems; the model '
             'reproduces rexpy.extract\'s output text exactly on every generated case (all dialects, tagging, extra letters, '
             'variable-length fragments; for cases that sample the model replays the recorded random.sample results of the '
@@ -252,9 +254,11 @@ CHECKS = {
             'option the tests selected from a class are exactly the visible tests that carry the tag themselves or '
             'through (an ancestor of) their class, each once; without it all; with the list option nothing runs and '
             'exactly the classes containing a tagged test are listed. Tied to the code by running scanner and loader '
-            'on generated inputs; whole runs (python module.py argv, side-effect log) are the oracle.',
-            'Trusted: Lean kernel; unittest itself (loader, option parsing, name narrowing) not modelled; single '
-            'inheritance only in the loader model.',
+            'on generated inputs; whole runs (python module.py argv, side-effect log; tests named as Class.method; tagged '
+            'tests under other decorators) and pytest runs through the library\'s collection filter (module-level test '
+            'functions among the classes; --tagged, --istagged) are the oracle.',
+            'Trusted: Lean kernel; unittest and pytest themselves (loader, option parsing, name narrowing, collection) not '
+            'modelled; single inheritance only in the loader model.',
             'DESIGN.md 4 C19'),
 }
 
